@@ -9,7 +9,7 @@ Open Scope Z_scope.
 Definition layer_ok (size g : Z) (l : layer) : Prop :=
   forall off n, 0 <= off -> 0 <= n -> off + n <= size -> off mod g = 0 -> n mod g = 0 ->
     exists p, l_read l off n = Ok p /\ srcs_of p = map (l_src l) (zseq off n) /\
-      (forall o m, In (SParent o m) p -> 0 <= o /\ 0 <= m /\ o + m <= size /\ o mod g = 0 /\ m mod g = 0).
+      (forall o m, In (SParent o m) p -> 0 < m -> 0 <= o /\ o + m <= size /\ o mod g = 0 /\ m mod g = 0).
 
 (* parent references point at the same guest offset *)
 Definition parent_same (l : layer) : Prop := forall o o', l_src l o = Parent o' -> o' = o.
@@ -45,25 +45,81 @@ Proof.
     destruct (Hl off n Hoff Hn Hfit Hog Hng) as (p & Hp & Hsrcs & Hpar).
     cbn [chain_read]. rewrite Hp. cbn [bind].
     (* the inner loop converts the plan segment by segment *)
-    assert (Hgo : forall segs, (forall o m, In (SParent o m) segs -> 0 <= o /\ 0 <= m /\ o + m <= size /\ o mod g = 0 /\ m mod g = 0) ->
+    assert (Hgo : forall segs, (forall o m, In (SParent o m) segs -> 0 < m -> 0 <= o /\ o + m <= size /\ o mod g = 0 /\ m mod g = 0) ->
       (fix go (segs : list seg) : res (list lsrc) :=
          match segs with
          | [] => Ok []
          | s :: t =>
            do a <- (match s with
-                    | SParent o m => chain_read rest (S depth) o m
+                    | SParent o m => if m <=? 0 then Ok [] else chain_read rest (S depth) o m
                     | _ => Ok (lsrcs_of_seg depth s)
                     end);
            do b <- go t; Ok (a ++ b)
          end) segs = Ok (map (conv rest depth) (srcs_of segs))).
     { induction segs as [|s t IHs]; intros Hin; [reflexivity|].
-      rewrite IHs by (intros o m Hi; apply Hin; now right).
+      rewrite IHs by (intros o m Hi Hm; apply Hin; [now right|exact Hm]).
       rewrite srcs_of_cons, map_app.
       destruct s as [z|o z|o z|o m|d k z];
         try (rewrite (lsrcs_conv rest depth) by (intros; discriminate); reflexivity).
-      destruct (Hin o m ltac:(now left)) as (Ho & Hm & Hf & Hg1 & Hg2).
-      rewrite (IH (S depth) o m Hrest Ho Hm Hf Hg1 Hg2). cbn [bind srcs_of_seg]. rewrite map_map. reflexivity. }
+      destruct (Z.leb_spec m 0) as [Hm0|Hm0].
+      { cbn [bind srcs_of_seg]. rewrite zseq_nonpos by exact Hm0. reflexivity. }
+      destruct (Hin o m ltac:(now left) Hm0) as (Ho & Hf & Hg1 & Hg2).
+      rewrite (IH (S depth) o m Hrest Ho ltac:(lia) Hf Hg1 Hg2). cbn [bind srcs_of_seg]. rewrite map_map. reflexivity. }
     rewrite (Hgo p Hpar), Hsrcs, map_map. reflexivity.
+Qed.
+
+(* ---------- any byte-granular reader with an exact pointwise theorem is a layer ---------- *)
+Lemma app_eq_map_zseq {A} (g : Z -> A) (l1 l2 : list A) off n k :
+  0 <= k -> Z.of_nat (length l1) = k -> l1 ++ l2 = map g (zseq off n) -> 0 <= n ->
+  k <= n /\ l1 = map g (zseq off k) /\ l2 = map g (zseq (off + k) (n - k)).
+Proof.
+  intros Hk Hl Heq Hn.
+  assert (Hkn : k <= n).
+  { apply (f_equal (@length A)) in Heq. rewrite app_length, map_length in Heq.
+    pose proof (zseq_length off n Hn). lia. }
+  split; [exact Hkn|].
+  replace n with (k + (n - k)) in Heq by lia. rewrite zseq_app, map_app in Heq by lia.
+  assert (Hl' : length l1 = length (map g (zseq off k))).
+  { rewrite map_length. pose proof (zseq_length off k Hk). lia. }
+  destruct (app_eq_app _ _ _ _ Heq) as [l [[H1 H2]|[H1 H2]]].
+  - assert (l = []). { apply (f_equal (@length A)) in H1. rewrite app_length in H1. destruct l; [reflexivity|cbn in H1; lia]. }
+    subst l. rewrite app_nil_r in H1. cbn [app] in H2. now subst.
+  - assert (l = []). { apply (f_equal (@length A)) in H1. rewrite app_length in H1. destruct l; [reflexivity|cbn in H1; lia]. }
+    subst l. rewrite app_nil_r in H1. cbn [app] in H2. now subst.
+Qed.
+
+Lemma sparent_in_range (g : Z -> src) :
+  (forall o o', g o = Parent o' -> o' = o) ->
+  forall p off n, 0 <= n -> srcs_of p = map g (zseq off n) ->
+  forall o m, In (SParent o m) p -> 0 < m -> off <= o /\ o + m <= off + n.
+Proof.
+  intros Hsame. induction p as [|s p IH]; intros off n Hn Hs o m Hin Hm; [destruct Hin|].
+  rewrite srcs_of_cons in Hs.
+  set (k := Z.max 0 (seg_len s)).
+  assert (Hlen : Z.of_nat (length (srcs_of_seg s)) = k).
+  { subst k. destruct (Z.leb_spec (seg_len s) 0) as [Hneg|Hpos].
+    - rewrite srcs_of_seg_nonpos by exact Hneg. cbn. lia.
+    - rewrite srcs_of_seg_length by lia. lia. }
+  destruct (app_eq_map_zseq g _ _ off n k ltac:(subst k; lia) Hlen Hs Hn) as (Hkn & H1 & H2).
+  destruct Hin as [->|Hin].
+  - cbn [seg_len] in *. assert (k = m) by (subst k; lia). subst k.
+    cbn [srcs_of_seg] in H1. rewrite H in H1.
+    rewrite (zseq_cons o m Hm), (zseq_cons off m Hm) in H1. cbn [map] in H1.
+    injection H1 as Hhd _. symmetry in Hhd. apply Hsame in Hhd. subst o. lia.
+  - destruct (IH (off + k) (n - k) ltac:(lia) H2 o m Hin Hm) as [A B]. subst k. lia.
+Qed.
+
+Theorem exact_reader_layer_ok size (l : layer) :
+  (forall o o', l_src l o = Parent o' -> o' = o) ->
+  (forall off n, 0 <= off -> 0 <= n -> off + n <= size ->
+     exists p, l_read l off n = Ok p /\ srcs_of p = map (l_src l) (zseq off n)) ->
+  layer_ok size 1 l.
+Proof.
+  intros Hsame Hex off n Hoff Hn Hfit _ _.
+  destruct (Hex off n Hoff Hn Hfit) as (p & Hp & Hs).
+  exists p. split; [exact Hp|]. split; [exact Hs|].
+  intros o m Hin Hm. destruct (sparent_in_range (l_src l) Hsame p off n Hn Hs o m Hin Hm) as [A B].
+  rewrite !Z.mod_1_r. repeat split; lia.
 Qed.
 
 (* non-vacuity / reading guide: a two-layer chain where the top holds even positions *)
